@@ -1,5 +1,5 @@
 From Coq Require Import ZArith List Bool Arith.
-From PV Require Import Base.U64 E3.E3_Run C05.C05_Asym C05.C05_AsymProofs C05.C05_Model C05.C05_Proofs C05.C05_Proofs2.
+From PV Require Import Base.U64 E3.E3_Run C05.C05_Asym C05.C05_AsymProofs C05.C05_Model C05.C05_Proofs C05.C05_Proofs2 C05.C05_Proofs3.
 Import ListNotations.
 
 (* ---- asymmetric_spinLock (the run-queue lock) ------------------------------------------------- *)
@@ -70,3 +70,17 @@ Theorem runs_once : forall progs nv n flags t0 s, (nv <= n)%nat -> reachable pro
        g_started (s_th s t) = 1%nat /\ g_finished (s_th s t) = 1%nat).
 Proof. exact runs_once_proof. Qed.
 Print Assumptions runs_once.
+
+(* join_exact: thread_join returns at most once, only for a DONE thread, with its return value; the stack is
+   handed back at most once, only after DONE and never while the dying thread's own context switch is still
+   pending; for a joinable thread exactly together with the join, a non-joinable thread is never joined *)
+Theorem join_exact : forall progs nv n flags t0 s, (nv <= n)%nat -> reachable progs nv n flags t0 s ->
+  forall t,
+    (g_joinret (s_th s t) <= 1)%nat /\
+    (g_joinret (s_th s t) = 1%nat -> th_state (s_th s t) = DONE /\ g_joinval (s_th s t) = th_retval (s_th s t) /\ th_joinable (s_th s t) = true) /\
+    (g_disposed (s_th s t) <= 1)%nat /\
+    (g_disposed (s_th s t) = 1%nat -> th_state (s_th s t) = DONE /\ forall v, v_pend (s_vc s v) <> PDie t) /\
+    (th_joinable (s_th s t) = true -> g_disposed (s_th s t) = g_joinret (s_th s t)) /\
+    (th_joinable (s_th s t) = false -> g_joinret (s_th s t) = 0%nat).
+Proof. exact join_exact_proof. Qed.
+Print Assumptions join_exact.
